@@ -26,7 +26,7 @@ import shutil
 from .. import core, tlc
 from ..fsshim import PREFIX_CLASSES, prefix_len
 from . import c10 as L
-from .c10 import SP, ID, FN_SP, FN_DOC, DOCS, PAYLOAD, Scen, ERRNOS
+from .c10 import SP, ID, FN_SP, FN_DOC, DOCS, PAYLOAD, Scen, ERRNOS, ERRNOS2
 
 LEVEL = "model_checking"
 ALL_L = ["init_fresh", "init_existing", "init_nosp", "init_badsp", "init_force", "rekey_fresh", "rekey_emptydst", "rekey_collide",
@@ -314,6 +314,12 @@ def run(ctx):
                        "step numbers, errnos, prefix class); from TLC's terminal states (<=1 errno fault [+crash]) plus the generic enumeration over "
                        "recorded mutating AND read steps plus seeded double faults")
     scens = c11_scenarios()
+    # errnos: the five of the property's quantifier, plus a second group ("or a file-system call fails") - in the specification an
+    # errno is a failure followed by the handler path; the handlers distinguish EEXIST/ENOTEMPTY/EACCES (destination exists),
+    # ENOENT (never injected), EXDEV, EEXIST/EACCES in save(); everything else is re-raised after the roll-back
+    allerr = ERRNOS + ERRNOS2
+    errs = ERRNOS + (["EBUSY", "EPERM"] if ctx.quick else ERRNOS2)
+    ctx.cov["errnos"] = {"exhaustive": errs, "sampled": [e for e in allerr if e not in errs]}
     d1 = probe_d1(ctx)
     fixed = bool(d1["fixed"])
     ctx.cov["deviation_flags"] = {"FixedCloneCleanup": fixed, "probe": d1}
@@ -322,7 +328,7 @@ def run(ctx):
     for spproto in ("atomic", "inplace"):
         scn = ALL_L if spproto == "atomic" else ["init_fresh", "init_force", "rekey_fresh"]
         dump = os.path.join(ctx.work, "c11graph_" + spproto)
-        r = tlc.run("lifecycle/Lifecycle.tla", cfg_text=tlc.cfg(L.consts(scn, 1, sp=spproto, fixed=fixed), invariants=INV), workdir=ctx.work,
+        r = tlc.run("lifecycle/Lifecycle.tla", cfg_text=tlc.cfg(L.consts(scn, 1, sp=spproto, fixed=fixed, errnos=errs), invariants=INV), workdir=ctx.work,
                     workers=nprocs, dump=dump, coverage=False, allow_violation=False)
         ctx.add_tlc("Lifecycle operations, <=1 errno fault + crash anywhere, state point protocol %s" % spproto, r)
         graphs[spproto] = L.terminal_states(dump + ".dot")
@@ -335,7 +341,7 @@ def run(ctx):
     if not need_ops <= graphs["atomic"][1]:
         raise core.MachineryError("vacuous model: step kinds never taken: %s" % sorted(need_ops - graphs["atomic"][1]))
     nsim = 3000 if ctx.quick else 40000
-    rs = tlc.run("lifecycle/Lifecycle.tla", cfg_text=tlc.cfg(L.consts(ALL_L, 2, fixed=fixed), invariants=INV), workdir=ctx.work, workers=nprocs,
+    rs = tlc.run("lifecycle/Lifecycle.tla", cfg_text=tlc.cfg(L.consts(ALL_L, 2, fixed=fixed, errnos=allerr), invariants=INV), workdir=ctx.work, workers=nprocs,
                  simulate="num=%d" % nsim, depth=200, seed=ctx.seed % 10 ** 6, coverage=False, allow_violation=False, timeout=1500)
     if rs.generated == 0:
         m = re.search(r"(\d+) states checked", rs.stdout) or re.search(r"(\d+) states generated", rs.stdout)
@@ -396,7 +402,7 @@ def run(ctx):
                 for p in PREFIX_CLASSES:
                     if L.eff_class(prefix_len(p, e["n"] or 0), e["n"] or 0) == p:
                         add({"crash_at": e["k"], "torn": p}, "generic")
-            for en in ERRNOS:
+            for en in errs:
                 add({"faults": {str(e["k"]): L._errno(en)}}, "generic")
                 if e["op"] == "write" and (e["n"] or 0) >= 2:
                     add({"faults": {str(e["k"]): [L._errno(en), "half"]}}, "generic")
@@ -407,12 +413,17 @@ def run(ctx):
         for e in reads:
             for en in (["EIO", "EACCES"] if ctx.quick else ERRNOS):
                 add({"rfaults": {str(e["r"]): L._errno(en)}}, "generic-read")
+        # seeded sample of the errnos that are not enumerated exhaustively in this tier
+        rest = [e for e in allerr if e not in errs]
+        if muts and rest:
+            for _ in range(10):
+                add({"faults": {str(rnd.choice(muts)["k"]): L._errno(rnd.choice(rest))}}, "seeded-errno")
         # seeded double faults over the recorded steps (the second fault lands on the handler path of the first)
         if muts:
             for _ in range(12 if ctx.quick else 120):
                 k1 = rnd.choice(muts)["k"]
                 k2 = k1 + rnd.randrange(1, 6)
-                m = {"faults": {str(k1): L._errno(rnd.choice(ERRNOS)), str(k2): L._errno(rnd.choice(ERRNOS))}}
+                m = {"faults": {str(k1): L._errno(rnd.choice(allerr)), str(k2): L._errno(rnd.choice(allerr))}}
                 if rnd.random() < 0.3:
                     m["crash_at"] = k2 + rnd.randrange(1, 4)
                 add(m, "seeded-double")
@@ -475,7 +486,7 @@ def run(ctx):
     nrej = 0
     for cfgname, spproto in (("default", "atomic"), ("nomt", "inplace")):
         idx = [i for i, t in enumerate(traces) if t["cfg"] == cfgname]
-        rej, diag = L.validate_traces(ctx, "C11 %s" % cfgname, [traces[i] for i in idx], L.consts(ALL_L, 3, sp=spproto, fixed=fixed))
+        rej, diag = L.validate_traces(ctx, "C11 %s" % cfgname, [traces[i] for i in idx], L.consts(ALL_L, 3, sp=spproto, fixed=fixed, errnos=allerr))
         for j in sorted(rej):
             s, mode, wasbad, origin = tmeta[idx[j]]
             nrej += 1
@@ -512,7 +523,7 @@ def selftest(ctx, scens, recs, fixed):
     wrongres = dict(good, res="EIO")
     lost = {k: v for k, v in post.items() if not k.endswith("data.txt")}
     wrongdisk = dict(good, disk=L.abstract_disk(lost, tk))
-    rej, _ = L.validate_traces(ctx, "C11 selftest", [good, dropped, wrongres, wrongdisk], L.consts(ALL_L, 1, fixed=fixed))
+    rej, _ = L.validate_traces(ctx, "C11 selftest", [good, dropped, wrongres, wrongdisk], L.consts(ALL_L, 1, fixed=fixed, errnos=ERRNOS + ERRNOS2))
     obs_ok = {"P": {"check": [], "ids": []}}
     j1 = judge_c11(s, pre, lost, obs_ok, "crash", {"crash_at": 3})
     other = next(k for k in post if k.startswith(wsdir("P", "O")) and k.endswith(FN_DOC))
